@@ -87,6 +87,27 @@ def poke(msgs):
             pass
 
 
+def retrieve(p, how, limit=10 ** 6):
+    """Take everything pending out of parser p: one get_message() at a time, or through for loops
+    that are left after the first message and started again."""
+    out = []
+    if how == 'get_message':
+        while len(out) < limit:
+            m = p.get_message()
+            if m is None:
+                break
+            out.append(m)
+    else:
+        while len(out) < limit:
+            n = len(out)
+            for m in p:
+                out.append(m)
+                break
+            if len(out) == n:
+                break
+    return out
+
+
 def check_pair(ctx, P, t, a, base=None):
     case = lambda: {'kind': 'pair', 'prefix': list(P), 'type': t, 'attrs': a}  # noqa: E731
     M = Message(t, **a)
@@ -111,6 +132,15 @@ def check_pair(ctx, P, t, a, base=None):
                 one.append(m)
         ctx.check('parse(P+enc(M)) == parse(P)+[M]', one == base + [M] and p.pending() == 0, 'feed_byte:' + t, case,
                   lambda: {'got': [m.hex() for m in one], 'want': [m.hex() for m in base] + [M.hex()]})
+        # everything in one feed(), taken out one message at a time
+        for how in ('get_message', 'loop-and-break'):
+            p = Parser()
+            p.feed(list(P) + enc)
+            npend = p.pending()
+            one = retrieve(p, how)
+            ctx.check('parse(P+enc(M)) == parse(P)+[M]', one == base + [M] and npend == len(base) + 1 and p.pending() == 0,
+                      f'{how}:' + t, case,
+                      lambda: {'got': [m.hex() for m in one], 'want': [m.hex() for m in base] + [M.hex()], 'pending()': npend})
         # the prefix and the message arrive in separate feed() calls (bytes and list chunks)
         for cont in (bytes, list):
             import copy
@@ -146,6 +176,12 @@ def check_concat(ctx, specs):
         p.feed(bytearray(stream))
         got2 = list(p)
         ctx.check('concatenation parses back', got2 == msgs, 'concat-feed', case, None)
+        for how in ('get_message', 'loop-and-break'):
+            p = Parser()
+            p.feed(stream)
+            got4 = retrieve(p, how)
+            ctx.check('concatenation parses back', got4 == msgs, f'concat-{how}', case,
+                      lambda: {'got': [m.hex() for m in got4][:8], 'want': [m.hex() for m in msgs][:8]})
         poke(got)
         got3 = mido.parse_all(stream)
         ctx.check('concatenation parses back', got3 == [Message(t, **a) for t, a in specs],
@@ -184,6 +220,12 @@ def check_rt_in_sysex(ctx, data, inserts):
                 ctx.check('realtime inside sysex delivered first, sysex intact', two == want,
                           f'rt-in-sysex-split:{cont.__name__}', case,
                           lambda: {'cut': cut, 'stream': stream, 'got': [m.hex() for m in two]})
+        for how in ('get_message', 'loop-and-break'):
+            p = Parser()
+            p.feed(stream)
+            one = retrieve(p, how)
+            ctx.check('realtime inside sysex delivered first, sysex intact', one == want, f'rt-in-sysex:{how}', case,
+                      lambda: {'stream': stream, 'got': [m.hex() for m in one]})
         got = mido.parse_all([0x40, 0x90, 1] + stream + [0xC0, 5])
         ctx.check('realtime inside sysex delivered first, sysex intact',
                   got == want + [Message('program_change', program=5)], 'rt-in-sysex-context', case,
